@@ -259,6 +259,7 @@ static int cmd_run(int argc, char **argv)
         int worker = 0, nworkers = 1, tier = 0;
         double secs = 10;
         int det_every = 16, shrink_budget = 600, max_viol = 20;
+        FILE *hashlog = nullptr;
         for (int i = 2; i < argc; i++) {
                 std::string a = argv[i];
                 auto next = [&]() { return std::string(i + 1 < argc ? argv[++i] : ""); };
@@ -284,6 +285,8 @@ static int cmd_run(int argc, char **argv)
                         tier = next() == "thorough" ? 1 : 0;
                 else if (a == "--det-every")
                         det_every = atoi(next().c_str());
+                else if (a == "--hashlog")
+                        hashlog = fopen(next().c_str(), "w");
                 else if (a == "--max-viol")
                         max_viol = atoi(next().c_str());
                 else if (a == "--avoid")
@@ -334,6 +337,8 @@ static int cmd_run(int argc, char **argv)
                         g_trace = 1;
                 RunResult rr = execute(plan, &log1);
                 runs++;
+                if (hashlog)
+                        fprintf(hashlog, "%llu %016llx %s\n", (unsigned long long) index, (unsigned long long) rr.hash, rr.oracle.c_str());
                 events += rr.events;
                 calls += rr.calls;
                 sigs.insert(rr.sig);
@@ -412,6 +417,8 @@ static int cmd_run(int argc, char **argv)
                 }
         }
         double wall = now_s() - t0;
+        if (hashlog)
+                fclose(hashlog);
         // signatures to file for cross-worker merge
         {
                 std::string sp = outdir + strf("/sigs_%d.bin", worker);
